@@ -87,6 +87,17 @@ def build(root, repo, work, seed=0, tier="quick"):
             disp_all.append('    for_all(%s, if n == 0 { %d } else { %d }, &mut |seq: &[Tok]| { %s; });' % (alpha, cfg.get("random_len_quick", 4), cfg.get("random_len_thorough", 5), call))
             disp_one.append('        "%s" => { %s; }' % (vn, call))
     cfg["_random"] = [dict(name=g["name"], grammar=g["text"]) for g in rnd]
+    rdec = random_decorated(seed, cfg.get("random_decorated_thorough", 20) if tier == "thorough" else cfg.get("random_decorated_quick", 6), lalrpop, gdir, renv, rnd)
+    for g in rdec:
+        oracle_fns.append(g["oracle"])
+        alpha = "&[%s]" % ", ".join(RND_TERMS[v][1] for v in g["terms"])
+        for suffix in ("lane", "ascent"):
+            vn = "%s_%s" % (g["name"], suffix)
+            mods.append('#[allow(warnings)] #[path = "gen/%s.rs"] mod %s;' % (vn, vn))
+            call = 'check_plain(rep, "%s", &g_%s(), seq, &|st| %s::N0Parser::new().parse(st).map(|_| ()))' % (vn, g["name"], vn)
+            disp_all.append('    for_all(%s, if n == 0 { %d } else { %d }, &mut |seq: &[Tok]| { %s; });' % (alpha, cfg.get("random_len_quick", 4), cfg.get("random_len_thorough", 5), call))
+            disp_one.append('        "%s" => { %s; }' % (vn, call))
+    cfg["_random_decorated"] = [dict(name=g["name"], grammar=g["text"]) for g in rdec]
     rlex = random_lexers(seed, cfg.get("random_lexers_thorough", 16) if tier == "thorough" else cfg.get("random_lexers_quick", 6), lalrpop, gdir, renv)
     for g in rlex:
         mods.append('#[allow(warnings)] #[path = "gen/%s.rs"] mod %s;' % (g["name"], g["name"]))
@@ -558,6 +569,93 @@ def random_lexers(seed, want, lalrpop, gdir, env):
             '    TermSpec { name: "%s", lit: %s, pat: r#"%s"#, rung: %d, skip: %s },' % (
                 n.replace('"', '\\"'), "true" if lit else "false", pat, rung, "true" if sk else "false") for (n, lit, pat, rung, sk) in spec))
         out.append(dict(name=name, text=text, spec=rust))
+    return out
+
+
+def _random_decorated(rng, base):
+    """a random grammar (one lalrpop accepts as it is) whose symbols now carry `?` / `*` / `+` and whose non-recursive
+    nonterminals may be `#[inline]`; -> (grammar body text, expanded plain productions for the oracle, terminals used)"""
+    prods, used = base["prods"], base["terms"]
+    nn = 1 + max(l for (l, r) in prods)
+    # reachability of each nonterminal from itself (inline is only legal on non-recursive nonterminals)
+    succ = {n: set(v for (l, r) in prods if l == n for (k, v) in r if k == "N") for n in range(nn)}
+    def recursive(n):
+        seen, todo = set(), list(succ[n])
+        while todo:
+            m = todo.pop()
+            if m == n:
+                return True
+            if m not in seen:
+                seen.add(m)
+                todo += list(succ[m])
+        return False
+    inline = set(n for n in range(1, nn) if not recursive(n) and rng.random() < 0.4)
+    deco = [[(k, v, rng.choice(["", "", "", "", "?", "*", "+"])) for (k, v) in r] for (l, r) in prods]
+    fresh, extra, nxt = {}, [], [nn]
+    def sym_of(k, v, suf):
+        base = ("T", RND_TERMS[v][2]) if k == "T" else ("N", v)
+        if not suf:
+            return base
+        key = (k, v, suf)
+        if key not in fresh:
+            f = nxt[0]
+            nxt[0] += 1
+            fresh[key] = f
+            if suf == "?":
+                extra.append((f, []))
+                extra.append((f, [base]))
+            elif suf == "*":
+                extra.append((f, []))
+                extra.append((f, [("N", f), base]))
+            else:
+                extra.append((f, [base]))
+                extra.append((f, [("N", f), base]))
+        return ("N", fresh[key])
+    plain = []
+    body = []
+    for n in range(nn):
+        alts = []
+        for (pi, (l, r)) in enumerate(prods):
+            if l == n:
+                alts.append("    " + " ".join((('"%s"' % RND_TERMS[v][0]) if k == "T" else ("N%d" % v)) + suf for (k, v, suf) in deco[pi]) + " => (),")
+                plain.append((l, [sym_of(k, v, suf) for (k, v, suf) in deco[pi]]))
+        body.append("%s%sN%d: () = {\n%s\n};" % ("#[inline] " if n in inline else "", "pub " if n == 0 else "", n, "\n".join(alts)))
+    return "\n".join(body) + "\n", plain + extra, used
+
+
+def random_decorated(seed, want, lalrpop, gdir, env, bases):
+    """-> list of dict(name, oracle (Rust fn text), terms, text) for decorated versions of the accepted random grammars
+    `bases` that lalrpop accepts too (lane table and recursive ascent); at most 4 attempts per base grammar"""
+    import random
+    rng = random.Random(32452843 * (seed + 1))
+    out, tries = [], 0
+    while len(out) < want and tries < 4 * len(bases) and bases:
+        base = bases[tries % len(bases)]
+        tries += 1
+        body, plain, used = _random_decorated(rng, base)
+        if all(not suf for alt in body.split("=> (),") for suf in ()) and ("?" not in body and "*" not in body and "+" not in body and "#[inline]" not in body):
+            continue          # nothing was decorated: it would duplicate the base grammar
+        text = RND_HEADER + body
+        name = "rdec%d" % len(out)
+        ok = True
+        for (suffix, attrs) in (("lane", ""), ("ascent", "#[recursive_ascent]")):
+            src = os.path.join(gdir, "%s_%s.lalrpop" % (name, suffix))
+            open(src, "w").write(text.replace("@ATTRS@", attrs))
+            q = subprocess.run([lalrpop, "--force", "--level", "quiet", src], cwd=gdir, env=env, capture_output=True, text=True, timeout=120)
+            if q.returncode != 0 or not os.path.exists(src[:-8] + ".rs"):
+                ok = False
+                break
+        if not ok:
+            for suffix in ("lane", "ascent"):
+                for ext in (".lalrpop", ".rs"):
+                    try:
+                        os.remove(os.path.join(gdir, "%s_%s%s" % (name, suffix, ext)))
+                    except OSError:
+                        pass
+            continue
+        prods = ", ".join("(%d, vec![%s])" % (l, ", ".join(("T(%d)" % v) if k == "T" else ("N(%d)" % v) for (k, v) in r)) for (l, r) in plain)
+        oracle = "fn g_%s() -> Grammar { use Sym::*; Grammar { start: 0, prods: vec![%s] } }" % (name, prods)
+        out.append(dict(name=name, oracle=oracle, terms=used, text=text))
     return out
 
 
